@@ -363,7 +363,24 @@ _RU = Source("vopy/confidence_region.py", "RectangularConfidenceRegion", "update
              opaque_locals={"std": ("σ", "R", "np.sqrt(np.diag(covariance.reshape(covariance.shape[-2:])))")},
              flags={"self.intersect_iteratively": False})
 
+_F1 = Source(
+    "vopy/utils/evaluate.py", None, "calculate_epsilonF1_score", {"len(pred_indices)": ("npred", "N")},
+    opaque_locals={
+        "true_eps": ("tp", "N",
+                     "np.sum(delta_values[np.array(list(pred_indices)).astype(int)] <= epsilon, axis=0)[0]"),
+        "uncovered_missed_pareto_count": (
+            "unc", "N",
+            "get_uncovered_size(dataset.out_data[indices_of_missed_pareto], dataset.out_data[pred_indices], "
+            "epsilon, order.ordering_cone.W)"),
+    })
+
 SPECS: dict[str, dict] = {
+    "C19": {
+        "imports": ["VOPyVerif.Model.EvalF1F"],
+        "formulas": [
+            Formula("f1", _F1, "return", ("tp", "npred", "unc"), hand="Eval.f1F"),
+        ],
+    },
     "C14": {
         "imports": ["VOPyVerif.Model.RegionUpdate", "VOPyVerif.Model.RealLike"],
         "formulas": [
